@@ -779,4 +779,11 @@ impl ord::verif::Hooks for SimHooks {
   fn first_inscription_height(&self) -> Option<u32> {
     self.0.lock().first_inscription_height
   }
+
+  fn entropy(&self) -> Option<[u8; 32]> {
+    let mut s = self.0.lock();
+    s.world.wallet_side.entropy_draws += 1;
+    let n = s.world.wallet_side.entropy_draws;
+    crate::world::derive("reveal-key", n, 32).try_into().ok()
+  }
 }
